@@ -88,6 +88,40 @@ def check(ctx):
         I2, s2_ = ctx.interp(), State()
         ref = ctx.call_func(I2, s2_, f"ref.sparsekde_ref.{fn}", *args)
         ctx.compare("NF-BANDWIDTH", f"{fn} == its formula", N, r, ref, ctx.site(f))
+    # ---- the distance the estimator uses: squared, and periodic whenever a cell is configured ----------------
+    # (whether the metric is the default or passed explicitly - the assignment, the bandwidths and the scores
+    #  must see the same geometry)
+    kcls = P.cls(f"{MOD}.SparseKDE")
+    for explicit in (False, True):
+        for cell_on in (False, True):
+            cfg_m = f"metric={'explicit' if explicit else 'default'},cell={cell_on}"
+            seen_kw = []
+
+            def user_metric(interp, args, kw, st_, node, seen_kw=seen_kw):
+                seen_kw.append((list(args), dict(kw)))
+                a, b = args[:2]
+                return V("arr", T("METRIC", a.term, b.term), shape=(a.shape[0], b.shape[0]) if a.shape and b.shape else None, orig=frozenset([("fresh",)]), loc=0)
+
+            Im, sm = ctx.interp(assume=protocols.assume_default), State()
+            cellm = arr("cell", "F")
+            ctor_m = {"descriptors": arr("descriptors", "D", "F"), "weights": arr("weights", "D")}
+            if cell_on:
+                ctor_m["metric_params"] = {"cell_length": cellm}
+            if explicit:
+                ctor_m["metric"] = V("func", T("metric"), func=("builtin", user_metric, "metric"))
+            om = ctx.construct(Im, sm, kcls, **ctor_m)
+            Am, Bm = arr("A", "nA", "F"), arr("B", "nB", "F")
+            rm = ctx._run(Im, sm, lambda: Im.call_value(Im.getattr_obj(om, "metric", sm), [Am, Bm], {}, sm, None))
+            site_m = ctx.site(P.method(kcls, "__init__"))
+            if explicit:
+                kw_ = seen_kw[0][1] if seen_kw else {}
+                sq_ = kw_.get("squared")
+                ok_ = len(seen_kw) == 1 and sq_ is not None and sq_.has_const and sq_.const is True and (("cell_length" in kw_ and kw_["cell_length"].term == cellm.term) if cell_on else ("cell_length" not in kw_ or kw_["cell_length"].kind == "none"))
+                ctx.ob("R-ASSIGN", f"a metric passed explicitly is called with squared=True and the configured cell [{cfg_m}]", ok_, f"{len(seen_kw)} call(s), keywords {sorted(kw_)}", site_m, cfg_m)
+            else:
+                I2m, s2m = ctx.interp(), State()
+                refm = ctx.call_func(I2m, s2m, "ref.pairwise_ref.periodic_euclidean", Am, Bm, cellm if cell_on else vconst(None), True)
+                ctx.compare("R-ASSIGN", f"the default metric is the squared (periodic) Euclidean distance [{cfg_m}]", N, rm, refm, site_m, cfg_m)
     # ---- assignment ----------------------------------------------------------------------------------
     acls = P.cls(f"{MOD}._NearestGridAssigner")
     mv = _metric()
